@@ -41,6 +41,8 @@ def shapes(tier):
         for m in Ms:
             for k in Ks: S.add((m, k, n))
     for (m, k, n) in [(8, 8, 8), (8, 3, 8), (4, 7, 4), (2, 5, 2), (3, 4, 3), (12, 2, 12), (13, 5, 4), (9, 9, 9), (5, 5, 5), (6, 6, 6)]: S.add((m, k, n))
+    # multiples of 3,4,5 vector widths with M a multiple of the row unroll (register-tile kernels), and N < V with M a multiple of 10
+    for (m, k, n) in [(12, 2, 24), (12, 2, 30), (12, 2, 36), (12, 3, 40), (24, 2, 48), (10, 2, 3), (20, 3, 3), (10, 2, 7), (10, 3, 5), (20, 2, 6)]: S.add((m, k, n))
     if tier == 'thorough':
         for (m, k, n) in [(16, 16, 16), (17, 3, 17), (4, 33, 4), (10, 10, 10), (12, 12, 12), (8, 16, 8), (2, 2, 40), (3, 3, 48), (24, 2, 24)]: S.add((m, k, n))
     return sorted(S)
